@@ -183,6 +183,10 @@ V("c07a-quadratic-phase-shear-over-hbar-in-helper", "C07", {"rule": "C07a", "con
   (GATESPY, "    def _get_passive_block(self, connector, config):\n        s = self._params[\"s\"]\n\n        return connector.np.array([[1 + s / 2 * 1j]], dtype=config.complex_dtype)\n\n    def _get_active_block(self, connector, config):\n        s = self._params[\"s\"]\n\n        return connector.np.array([[s / 2 * 1j]], dtype=config.complex_dtype)\n", "    def _get_shear(self, config):\n        return self._params[\"s\"] / config.hbar\n\n    def _get_passive_block(self, connector, config):\n        shear = self._get_shear(config)\n\n        return connector.np.array([[1 + shear * 1j]], dtype=config.complex_dtype)\n\n    def _get_active_block(self, connector, config):\n        shear = self._get_shear(config)\n\n        return connector.np.array([[shear * 1j]], dtype=config.complex_dtype)\n"))
 V("c07a-quadratic-phase-shear-helper", "C07", "silent",
   (GATESPY, "    def _get_passive_block(self, connector, config):\n        s = self._params[\"s\"]\n\n        return connector.np.array([[1 + s / 2 * 1j]], dtype=config.complex_dtype)\n\n    def _get_active_block(self, connector, config):\n        s = self._params[\"s\"]\n\n        return connector.np.array([[s / 2 * 1j]], dtype=config.complex_dtype)\n", "    def _get_shear(self, config):\n        return self._params[\"s\"] / 2\n\n    def _get_passive_block(self, connector, config):\n        shear = self._get_shear(config)\n\n        return connector.np.array([[1 + shear * 1j]], dtype=config.complex_dtype)\n\n    def _get_active_block(self, connector, config):\n        shear = self._get_shear(config)\n\n        return connector.np.array([[shear * 1j]], dtype=config.complex_dtype)\n"))
+V("c08c-channel-right-factor-not-transposed", "C08", {"rule": "C08c", "contains": "deterministic_gaussian_channel"},
+  (GSTEPS, "    state.xpxp_covariance_matrix = (\n        embedded_X @ covariance_matrix @ embedded_X.T + embedded_Y\n    )", "    state.xpxp_covariance_matrix = (\n        embedded_X @ covariance_matrix @ embedded_X + embedded_Y\n    )"))
+V("c08c-channel-congruence-through-local", "C08", "silent",
+  (GSTEPS, "    state.xpxp_covariance_matrix = (\n        embedded_X @ covariance_matrix @ embedded_X.T + embedded_Y\n    )", "    transformed = embedded_X @ covariance_matrix @ embedded_X.T\n    state.xpxp_covariance_matrix = transformed + embedded_Y"))
 # ------------------------------------------------------------------------------------------- C20
 V("c20-sub-add", "C20", {"rule": "C20c", "contains": "Sub"}, (EXPR, "ast.Sub: op.sub", "ast.Sub: op.add"))
 V("c20-lt-le", "C20", {"rule": "C20c", "contains": "Lt"}, (EXPR, "ast.Lt: op.lt", "ast.Lt: op.le"))
